@@ -104,7 +104,7 @@ def run(ctx):
     ctx.trusted = cm.STD_TRUST
     ctx.tested_not_proved = ["hole filling (scipy.ndimage.binary_fill_holes): containment tested only",
                              "binary64 path lengths equal the real-number value to 1e-9 (tested)"]
-    proved = cm.prove(ctx)
+    proved = cm.prove_with_kernels(ctx, ["c_upstream", "c_downstream", "c_neighbours"])
     cm.use_impl()
     from hydrodiy.gis import grid as hygrid
     rng = ctx.rng
